@@ -145,6 +145,16 @@ def cases(tier, seed):
                               [t2, gen, b"10.1.2.3,SER-10," + tail.split(b",", 1)[1],
                                ["10.1.2.3", 49005]]],
                    "unicast": "10.1.2.3"}
+    # some other task of the application holds the loop up for a while (a synchronous call):
+    # requests go out late, but the wait after each of them is still a full interval
+    for gen in (4, 5):
+        resp = valid_response(random.Random(gen + 10), gen)
+        for blocks, rt in (([[0.1, 1.2]], 2.15), ([[0.1, 1.2]], 1.5), ([[0.61, 0.7]], 1.6),
+                           ([[0.1, 0.3], [0.7, 0.6]], 2.0), ([[1.1, 2.0]], None),
+                           ([[0.1, 1.2]], None)):
+            for uni in (None, "10.1.2.3"):
+                yield {"script": [] if rt is None else [[rt, gen, resp, ["10.1.2.3", 49005]]],
+                       "blocks": blocks, "unicast": uni}
     # a street of consoles: dozens of distinct valid answers of one model within one interval
     for gen in (4, 5):
         for count in (17, 40, 120):
@@ -183,26 +193,39 @@ def cases(tier, seed):
                "rounds": rounds, "unicast": "10.1.2.3" if i % 3 == 0 else None}
 
 
-def predict(script):
+def _wake(x, blocks):
+    """When something due at x actually happens, given the intervals [b, b+d) during which the
+    loop is held up by a synchronous call."""
+    for b, d in blocks:
+        if b <= x < b + d:
+            return b + d
+    return x
+
+
+def predict(script, blocks=()):
     """Per discoverer: request instants, end instant, set of expected responses."""
     out = {}
     for g in (4, 5):
-        mine = [(t, d) for t, port, d, a in script if port == g]
+        mine = [(_wake(t, blocks), d) for t, port, d, a in script if port == g]
         sends = [0.0]
-        for boundary in (0.5, 1.0):
+        end = None
+        while end is None:
+            # the wait that follows a request is relative to the moment it was sent
+            boundary = _wake(sends[-1] + 0.5, blocks)
             got = any(t < boundary and _valid(g, d) is not None and _valid(g, d) is not R.UNDEC
                       for t, d in mine)
-            undec = any(t < boundary and _valid(g, d) is R.UNDEC for t, d in mine)
+            undec = any(t < boundary and _valid(g, d) is R.UNDEC for t, d in mine) or \
+                (blocks and any(t == boundary for t, d in mine))
             if undec and not got:
                 sends = None
                 break
-            if got:
-                break
-            sends.append(boundary)
+            if got or len(sends) == 3:
+                end = boundary
+            else:
+                sends.append(boundary)
         if sends is None:
             out[g] = None
             continue
-        end = 0.5 * len(sends)
         resp = set()
         undec = False
         for t, d in mine:
@@ -316,6 +339,8 @@ def run_case(case):
                     if getattr(tr.sock, "bound", (None, None))[1] == UPORT[g]:
                         tr.report_error(OS_ERRORS[kind]())
             loop.call_at(t, report)
+        for b, d in case.get("blocks", ()):
+            loop.call_at(b, loop.block, d)
         t0 = loop.time()
         r = await H.probe(log, "discover", pyairtouch.discover(case["unicast"]))
         out["ret_t"] = loop.time() - t0
@@ -350,7 +375,8 @@ def run_case(case):
     if isinstance(out.get("ret"), Exception):
         v("discovery-raises", exc=repr(out["ret"]))
         return {"violations": viol, "evals": 1, "decided": 1, "obs": obs}
-    pred = predict(script)
+    blocks = [tuple(x) for x in case.get("blocks", ())]
+    pred = predict(script, blocks)
     sends = {4: [], 5: []}
     for _, t, k, d in log.events:
         if k in ("UDP.sendto", "UDP.sendto_closed"):
@@ -371,7 +397,7 @@ def run_case(case):
         p = pred[g]
         if len(sends[g]) > 3:
             v("more-than-three-discovery-requests", gen=g, sends=sends[g])
-        if [round(x, 9) for x in sends[g]] != p["sends"]:
+        if [round(x, 9) for x in sends[g]] != [round(x, 9) for x in p["sends"]]:
             v("discovery-request-instants-wrong", gen=g, sends=sends[g], want=p["sends"])
         if len(p["sends"]) < 3:
             obs["early_stop_after_response"] = 1
@@ -410,6 +436,8 @@ def run_case(case):
         obs["duplicates_collapsed"] = 1
     if case["unicast"]:
         obs["unicast_mode"] = 1
+    if blocks:
+        obs["searches_with_the_loop_held_up"] = 1
     nerr = sum(1 for e in log.events if e[2] == "UDP.error")
     if nerr:
         obs["os_errors_reported_during_a_search"] = nerr
